@@ -1,6 +1,7 @@
 package main
 
 import (
+	"bytes"
 	"encoding/json"
 	"fmt"
 	"sort"
@@ -13,6 +14,7 @@ type opsArg struct {
 	Init []string `json:"init"` // set-up operations applied before the history
 	// Deep-pass options
 	RestartCheck bool `json:"restart_check"` // restart;restart differential at every distinct state
+	ArchiveCheck bool `json:"archive_check"` // download the archive at every distinct state and apply the C14 oracle to it
 }
 
 func opClassOf(op string) string {
@@ -101,6 +103,29 @@ func opsExec(raw json.RawMessage, hist []string, deep bool) *bfsResult {
 	if sig, what := w.checkServerList(); sig != "" {
 		res.fail(sig+"/after-"+last, what)
 		return res
+	}
+	if sig, what := w.checkRequests(); sig != "" {
+		res.fail(sig+"/after-"+last, what)
+		return res
+	}
+	if a.ArchiveCheck {
+		code, body := w.httpDo("GET", "/api/v1/archive", nil)
+		if code != 200 {
+			res.fail("archive-status/after-"+last, code)
+			return res
+		}
+		if v := checkArchiveZip(w, body); v != nil {
+			res.fail(v.Sig+"/after-"+last, v.Detail)
+			return res
+		}
+		// on a quiescent server the archive holds the complete files
+		files, _ := readZip(body)
+		for _, f := range []string{"allDeviceStats.dat", "equipment-reports.dat", "equipment-authorizations.dat", "gcaPubKey.dat"} {
+			if b, _ := readFileMaybe(w.Dir, f); !bytes.Equal(b, files[f]) {
+				res.fail("archive-incomplete-at-rest/"+f+"/after-"+last, fmt.Sprintf("archived %d bytes of %d", len(files[f]), len(b)))
+				return res
+			}
+		}
 	}
 	if a.RestartCheck {
 		for round := 1; round <= 2; round++ {
